@@ -343,6 +343,13 @@ def tokenAccepted : Bool :=
 /-- every bond type is written as a (non-empty, whitespace-free) token -/
 def tokensOk : Bool := TypeTable.allBelow bt.nB fun b => TypeTable.codesTok (bt.emitCodes b)
 
+/-- no proper non-empty prefix of a written bond token is itself a token the reader accepts
+(so a text cut inside the type token of its last bond line is rejected) -/
+def prefixFree : Bool :=
+  TypeTable.allBelow bt.nB fun b =>
+    TypeTable.allBelow (bt.emitCodes b).length fun n =>
+      Nat.beq n 0 || (bt.acceptCodes ((bt.emitCodes b).take n)).isNone
+
 /-- the bond types the Tripos mol2 format can express, with their standard tokens -/
 def expressible : List (Codes × Nat) :=
   [([49], bt.sp.bSingle), ([50], bt.sp.bDouble), ([51], bt.sp.bTriple), ([97, 109], bt.sp.bAmide),
